@@ -280,6 +280,9 @@ def run_property(modname, tier, seed, workers=None, only_shards=None):
             new.append(fp)
         else:
             matched.setdefault(f["id"], (f, []))[1].append(fp)
+    if os.environ.get("UTMC_DUMP_KNOWN"):
+        with open(os.environ["UTMC_DUMP_KNOWN"], "w") as fh:
+            json.dump({fid: sorted(fps) for fid, (f, fps) in matched.items()}, fh, indent=1)
     rdir = os.path.join(os.environ.get("UTMC_REPLAY_DIR") or os.path.join(VERIF, "replays"), pid)
     os.makedirs(rdir, exist_ok=True)
     lines = []
